@@ -556,7 +556,7 @@ fn q14_subset(ctx: &Ctx, rng: &mut Rng, n: usize) -> Option<Vec<usize>> {
 }
 
 pub fn c14_random(ctx: &Ctx, rng: &mut Rng, seed: u64, quick: bool) -> History {
-    let subset = if quick { q14_subset(ctx, rng, 400) } else { None };
+    let subset = if quick { q14_subset(ctx, rng, 1500) } else { None };
     let file = Some(ctx.q14_file.display().to_string());
     let ask = |slot: usize| Op::Ask { slot, phrases: vec![], file: file.clone(), subset: subset.clone(), detail: false };
     let sessions = rng.range(3, 5);
@@ -631,6 +631,15 @@ pub fn c14_random(ctx: &Ctx, rng: &mut Rng, seed: u64, quick: bool) -> History {
                 label.push(format!("disk-rebuild after {d:?} ({cpus} cpus)"));
                 steps.push(Step::Damage { d });
                 steps.push(Step::Start { session: ctx.session(cpus, vec![], vec![Op::Open { slot: 0, mode: Mode::Disk, plan: random_plan(rng) }, ask(0)]) });
+            }
+        }
+    }
+    // the environment of the process that builds or opens the index is no input to the answers: a
+    // quarter of the sessions run with a log level set (and then with the real program's logger)
+    for st in steps.iter_mut() {
+        if let Step::Start { session } = st {
+            if rng.chance(1, 4) {
+                session.env.push(("RUST_LOG".into(), rng.pick(&["debug", "anything=debug", "info", "anything=trace", "warn"]).to_string()));
             }
         }
     }
@@ -736,7 +745,18 @@ pub fn c16_beside(ctx: &Ctx, rng: &mut Rng, seed: u64) -> History {
     let ops = vec![
         Op::Open { slot: 0, mode: Mode::Disk, plan: Plan::default() },
         Op::OwnWords { slot: 0, perms: Perms::Identity, only: Some(only.clone()), again: None },
-        Op::OpenBeside { slot: 1, watch_slot: 0, hold_point: hold_point.clone(), hold_ms: 1700, ask_after_ms: 1200, only: Some(only.clone()) },
+        // every other time the second open fails before its commit (what a killed run leaves), and
+        // time passes: a minute, an hour, a week
+        Op::OpenBeside {
+            slot: 1,
+            watch_slot: 0,
+            hold_point: hold_point.clone(),
+            hold_ms: 1700,
+            ask_after_ms: 1200,
+            only: Some(only.clone()),
+            fail_point: if rng.chance(1, 2) { Some(rng.pick(&["rebuild.cleared", "rebuild.before_commit", "rebuild.asset_start"]).to_string()) } else { None },
+            advance_s: *rng.pick(&[0u64, 45, 90, 3700, 700_000]),
+        },
         Op::OwnWords { slot: 0, perms: Perms::Identity, only: Some(only.clone()), again: None },
         Op::OwnWords { slot: 1, perms: Perms::Identity, only: Some(only), again: None },
     ];
